@@ -148,6 +148,9 @@ func (i *interpreter) global(g *ssa.Global) *value {
 		return r
 	}
 	cell := zero(mustDeref(g.Type()))
+	if g.Pkg != nil && g.Pkg.Pkg.Path() == "os" && g.Name() == "Args" {
+		cell = []value{"emerge"} // the program name; arguments are the business of the flag-parsing stub
+	}
 	i.globals[g] = &cell
 	return &cell
 }
